@@ -86,6 +86,7 @@ def make_plan(ctx):
 
 def body(ctx):
     ctx.model("LaneEquiv.tla", timeout=1500) if not ctx.quick else ctx.model("LaneEquiv.tla", "LaneEquivQuick.cfg", timeout=600)
+    ctx.model("K_IntKernels.tla", timeout=600)
     plan = lanes.replay_plan(ctx.replay) if ctx.replay else make_plan(ctx)
     ctx.log("plan: %d lines" % len(plan))
     events, plan = lanes.record(ctx, "int", plan, "c01")
